@@ -32,6 +32,7 @@ logger = logging.getLogger(__name__)
 import msgpack
 
 from spyne import ValidationError
+from spyne.error import ResourceNotFoundError
 from spyne.util import six
 from spyne.model.fault import Fault
 from spyne.model.primitive import Double
@@ -177,7 +178,11 @@ class MessagePackDocument(HierDictDocument):
 
         mrs, = ctx.in_body_doc.keys()
         if not six.PY2 and isinstance(mrs, bytes):
-            mrs = mrs.decode(self.key_encoding)
+            try:
+                mrs = mrs.decode(self.key_encoding)
+            except UnicodeDecodeError:
+                # not a name, so not the name of anything we serve
+                raise ResourceNotFoundError(repr(mrs))
 
         return '{%s}%s' % (self.app.interface.get_tns(), mrs)
 
